@@ -267,19 +267,100 @@ def container_boxes(ctx, world):
                 ctx.ob("A14.containers", inst, True, loc_of(m, st))
         # __add__/__radd__ of SequenceBox
         if cname == "SequenceBox":
-            for meth, prim in (("__add__", "sequence_extend_right"), ("__radd__", "sequence_extend_left")):
+            for meth, self_side in (("__add__", "left"), ("__radd__", "right")):
                 fn = next((s for s in cls.body if isinstance(s, ast.FunctionDef) and s.name == meth), None)
                 n += 1
-                ok = False
+                ok, why = False, f"SequenceBox.{meth} is missing"
                 if fn is not None:
-                    from ..tutil import expand as _ex, unseq as _us
-
-                    r_, sy_, m_, fn_, sc_ = eval_function(world, "autograd.builtins", f"SequenceBox.{meth}")
-                    e = _us(_ex(world.ev, r_, {f"autograd.builtins.{prim}"})) if r_ is not None else None
-                    if e is not None and is_call_to(e, f"autograd.builtins.{prim}"):
-                        ok = len(e.args) == 2 and not e.kw and e.args[0] is sy_["#0"] and e.args[1].op == "star" and e.args[1].x is sy_["#1"]
-                _okfail(ctx, "A14.containers", f"SequenceBox.{meth}", ok, loc_of(m, fn) if fn else loc_of(m, cls), f"SequenceBox.{meth} is not {prim}(self, *other)", "traced_tuple + (a, b) / (a, b) + traced_tuple", construct=f"autograd.builtins.SequenceBox.{meth}")
+                    ok, why = _concat_wiring(world, meth, self_side)
+                _okfail(ctx, "A14.containers", f"SequenceBox.{meth}", ok, loc_of(m, fn) if fn else loc_of(m, cls), f"SequenceBox.{meth}: {why}", "traced_tuple + (a, b) / (a, b) + traced_tuple with traced a, b", construct=f"autograd.builtins.SequenceBox.{meth}")
     ctx.floor("A14.containers methods", n, 14)
+
+
+def _concat_wiring(world, meth, self_side):
+    """traced concatenation `self + other` / `other + self` of a SequenceBox, decided on the evaluated method:
+       (1) the result is a call of a primitive that receives `self` as a positional argument of its own (a Box inside
+           another argument is invisible to the tracer);
+       (2) the plain operand `other` reaches primitives only element-wise (`*other`): handed over whole, the traced
+           leaves it contains are not seen and their derivative is silently zero;
+       (3) the primitive's own body puts the segment that stems from `self` on the side the operator promises"""
+    from ..terms import walk as _walk
+    from ..tutil import expand as _ex, unseq as _us
+
+    ev = world.ev
+    r_, sy_, m_, fn_, sc_ = eval_function(world, "autograd.builtins", f"SequenceBox.{meth}")
+    if r_ is None:
+        return False, "no value is returned"
+    selfs, other = sy_["#0"], sy_["#1"]
+
+    def is_prim_call(t):
+        if t.op != "call" or t.fn.op != "ref":
+            return False
+        return t.fn.ref.kind in ("repo", "classattr") and world.repo.is_primitive_ref(t.fn.ref)
+
+    # expand helpers but keep every primitive as a call
+    keep = set()
+    e = None
+    for _ in range(4):
+        e = _us(_ex(ev, r_, keep))
+        new = {t.fn.ref.qual for t in _walk(e) if is_prim_call(t)} - keep
+        if not new:
+            break
+        keep |= new
+    if not is_prim_call(e):
+        return False, f"the result is not the call of a primitive (found {str(e)[:60]})"
+    pcs = [t for t in _walk(e) if is_prim_call(t)]
+    if not any(any(a is selfs for a in t.args) for t in pcs):
+        return False, "`self` is not handed to a primitive as an argument of its own"
+    for t in pcs:
+        if any(a is other for a in t.args) or any(v is other for v in t.kw.values()):
+            return False, f"the plain operand is handed to {t.fn.ref.qual.rsplit('.', 1)[-1]} as ONE argument: traced values inside it are invisible to the tracer (it has to be unpacked, *other)"
+    if not any(any(a.op == "star" and a.x is other for a in t.args) for t in pcs):
+        return False, "the elements of the plain operand never reach a primitive"
+    # (3) side of the self-segment in the outermost primitive's body
+    top = e
+    raw = top.fn.ref.node
+    if not isinstance(raw, ast.FunctionDef):
+        return False, "the primitive's body is not available"
+    body_clo = T("closure", raw, top.fn.ref.mod, fnode=raw, scope=Scope(), bound=[], boundkw={})
+    marks = []
+    margs = []
+    for a in top.args:
+        if a.op == "star":
+            mk = T("sym", name="seg_other", role="param", star=True)
+            margs.append(T("star", x=mk))
+            marks.append((mk, "other" if a.x is other else "?"))
+        else:
+            mk = T("sym", name=f"seg{len(marks)}", role="param")
+            margs.append(mk)
+            src = "self" if a is selfs else ("other" if any(x is other for x in _walk(a)) else "?")
+            marks.append((mk, src))
+    body = _us(_ex(ev, ev.apply(body_clo, margs, {}, []), ()))
+    if body is None or body.op != "bin" or body.opname != "Add":
+        return False, f"the primitive's body is not a concatenation a + b (found {str(body)[:60]})"
+    side = {}
+
+    def holds(t, mk, depth=0):
+        """does the VALUE of t contain the marked segment (type(x) / len(x) only consult it)"""
+        if t is mk:
+            return True
+        if t is None or depth > 30:
+            return False
+        if t.op == "call" and t.fn.op == "ref" and t.fn.ref.qual.rsplit(".", 1)[-1] in ("type", "len", "isinstance", "type_", "isinstance_"):
+            return False
+        if t.op == "call":
+            return any(holds(c, mk, depth + 1) for c in list(t.args) + list(t.kw.values())) or (t.fn.op != "ref" and holds(t.fn, mk, depth + 1))
+        return any(holds(c, mk, depth + 1) for c in children(t))
+
+    for mk, src in marks:
+        inl = holds(body.l, mk)
+        inr = holds(body.r, mk)
+        if inl == inr:
+            return False, "a segment appears on both sides / on no side of the concatenation"
+        side[src] = "left" if inl else "right"
+    if side.get("self") != self_side or side.get("other") == self_side:
+        return False, f"the traced sequence ends up on the {side.get('self')} of the result, the operator promises the {self_side}"
+    return True, ""
 
 
 # --------------------------------------------------------------------------------------------- A15
